@@ -86,9 +86,14 @@ pub trait AsyncRead: Sized {
     spec fn rid(&self) -> int;
     #[verifier::prophetic]
     spec fn end_rid(&self) -> int;
+    // frame: the part of the object's state that reading never changes (for a duplex stream:
+    // the bytes written to it so far; empty for plain readers)
+    spec fn aux(&self) -> Seq<u8>;
+    #[verifier::prophetic]
+    spec fn end_aux(&self) -> Seq<u8>;
     proof fn resolved(&self)
         requires has_resolved(*self)
-        ensures self.hist() == self.end_hist(), self.rid() == self.end_rid();
+        ensures self.hist() == self.end_hist(), self.rid() == self.end_rid(), self.aux() == self.end_aux();
     proof fn within_limit(&self)
         ensures bytes_of(self.hist()).len() <= self.limit();
     fn read(&mut self, buf: &mut [u8]) -> (r: Result<usize, std::io::Error>)
@@ -97,6 +102,7 @@ pub trait AsyncRead: Sized {
             (*final(self)).end_hist() == (*old(self)).end_hist(),
             (*final(self)).limit() == (*old(self)).limit(),
             (*final(self)).rid() == (*old(self)).rid(), (*final(self)).end_rid() == (*old(self)).end_rid(),
+            (*final(self)).aux() == (*old(self)).aux(), (*final(self)).end_aux() == (*old(self)).end_aux(),
             bytes_of((*final(self)).hist()).len() <= (*final(self)).limit(),
             r is Ok ==> bytes_of((*final(self)).hist()).len() == bytes_of((*old(self)).hist()).len() + r->Ok_0,
             match r {
@@ -110,6 +116,7 @@ pub trait AsyncRead: Sized {
             (*final(self)).end_hist() == (*old(self)).end_hist(),
             (*final(self)).limit() == (*old(self)).limit(),
             (*final(self)).rid() == (*old(self)).rid(), (*final(self)).end_rid() == (*old(self)).end_rid(),
+            (*final(self)).aux() == (*old(self)).aux(), (*final(self)).end_aux() == (*old(self)).end_aux(),
             (*old(self)).hist().is_prefix_of((*final(self)).hist()),
             read_to_end_post((*final(self)).hist().skip((*old(self)).hist().len() as int), old(buf)@, final(buf)@, r);
 }
@@ -131,6 +138,9 @@ impl<T: AsyncRead> AsyncRead for &mut T {
     open spec fn rid(&self) -> int { (**self).rid() }
     #[verifier::prophetic]
     open spec fn end_rid(&self) -> int { mut_ref_future(*self).rid() }
+    open spec fn aux(&self) -> Seq<u8> { (**self).aux() }
+    #[verifier::prophetic]
+    open spec fn end_aux(&self) -> Seq<u8> { mut_ref_future(*self).aux() }
     proof fn resolved(&self) {}
     proof fn within_limit(&self) { (**self).within_limit(); }
     fn read(&mut self, buf: &mut [u8]) -> (r: Result<usize, std::io::Error>) { (**self).read(buf) }
@@ -138,8 +148,13 @@ impl<T: AsyncRead> AsyncRead for &mut T {
 }
 pub broadcast proof fn reader_resolved<R: AsyncRead>(r: R)
     requires #[trigger] has_resolved(r)
-    ensures r.hist() == r.end_hist(), r.rid() == r.end_rid()
+    ensures r.hist() == r.end_hist(), r.rid() == r.end_rid(), r.aux() == r.end_aux()
 { r.resolved(); }
+// a reader handle is given up as the same object, with its non-read state untouched
+#[verifier::prophetic]
+pub open spec fn kept<R: AsyncRead>(r: R) -> bool {
+    r.end_rid() == r.rid() && r.end_aux() == r.aux() && r.hist().is_prefix_of(r.end_hist())
+}
 
 pub trait AsyncWrite: Sized {
     spec fn cur(&self) -> Seq<u8>;
